@@ -9,7 +9,7 @@ from props.suboracles import pairs_of, pres_set
 
 class C17(PropBase):
     id = 'C17'
-    obs = {'stat', 'iet'}
+    obs = {'stat', 'iet', 'ids'}
     rule = ('DynGraph without self-loops (removal enabled; interval spans, nodes that disappear and reappear, isolated nodes) for the '
             'eleven ratio measures, both classes for the inter-event distributions; every measure is recomputed from has_interaction / '
             'snapshot-id answers by its set-theoretic definition (coverage = sum_t |V_t| / (|T||V|), density = sum_{u<v}|T_uv| / '
@@ -56,8 +56,12 @@ class C17(PropBase):
                 for v in ns:
                     if u != v:
                         prog += [('stat', 0, w, u, v) for w in ('edge_contribution', 'node_pair_uniformity', 'pair_density')]
-            for t in ts[::2]:
+            for t in ts:
                 prog.append(('stat', 0, 'snapshot_density', t, None))
+        if not d:
+            # the statistics are queries: evaluating them (snapshot_density at non-snapshot instants included) must not
+            # change what the others answer -- re-observe
+            prog += [('ids', 0), ('stat', 0, 'coverage', None, None)] + [('stat', 0, 'node_contribution', u, None) for u in ns[:2]]
         prog.append(('iet', 0, 'global', None))
         for u in ns:
             prog.append(('iet', 0, 'node', u))
@@ -84,6 +88,13 @@ class C17(PropBase):
         def frac(n, m):
             return 'ZeroDivisionError' if m == 0 else Fraction(n, m)
 
+        first = {}
+        for i, (op, r) in enumerate(zip(prog, ri)):
+            if op[0] in ('ids', 'stat'):
+                qk = repr(op)
+                if qk in first and first[qk] != r:
+                    fails.append(dict(index=i, op=list(op), what='the same query answered %r earlier and %r now: a query changed the graph' % (first[qk], r)))
+                first.setdefault(qk, r)
         for i, (op, r) in enumerate(zip(prog, ri)):
             if op[0] == 'stat':
                 _, _, w, u, v = op
